@@ -9,7 +9,7 @@ C  zero_copy* allocate nothing and copy nothing; borrowed arrays are never freed
 import os
 
 import ir
-from ir import walk, unwrap, show
+from ir import walk, unwrap, show, is_node
 from absint import AbsInt
 from accesses import Analyzer
 from effects import locate
@@ -278,6 +278,73 @@ def rule_D(ck, units):
             ck.ob('D.block-iterator-siblings', 'amgcl::adapter::block_matrix_adapter::row_iterator', d['inc'].where(), not dets, '; '.join(dets))
 
 
+BLOCK_ADAPTER_CALLERS_SORTED = {
+    'amgcl::relaxation::as_block::type': 'constructed by amg / as_preconditioner with their private copy of the matrix, which C17-A requires to be sorted before any other use',
+}
+
+
+def rule_E(ck, units):
+    """adapter::block_matrix merges the b scalar rows of a block row by advancing one cursor per row up to the current block
+    column: it needs row-sorted input.  Every place that applies it must hand it a sorted matrix."""
+    ck.rule('E.block-adapter-sorted', 'adapter::block_matrix (a merge over the scalar rows of a block row) is applied only to row-sorted matrices: its argument is sorted by sort_rows earlier in the '
+                                      'same function, or is an internal shared CRS matrix of the hierarchy; a generic user matrix must not reach it unsorted', 3)
+    done = set()
+    for u in units.values():
+        an = Analyzer([u])
+        for f in u.funcs:
+            if f.body is None:
+                continue
+            calls = [c for c in walk(f.body) if c['k'] == 'call' and (c.get('f') or '') == 'amgcl::adapter::block_matrix' and c.get('a')]
+            calls += [c for i in f.inits if is_node(i.get('e')) for c in walk(i['e']) if c['k'] == 'call' and (c.get('f') or '') == 'amgcl::adapter::block_matrix' and c.get('a')]
+            if not calls or (f.file, f.line) in done or f.rel().startswith('/'):
+                continue      # (units of /verif that merely instantiate the adapter are not call sites of the library)
+            done.add((f.file, f.line))
+            for k, c in enumerate(calls):
+                arg = c['a'][0]
+                r = an.root_of_expr(f, arg)
+                key = '%s|%s#%d' % (f.rel(), f.q, k + 1)
+                sorts = [s_ for s_ in f.calls() if (s_.get('f') or '').endswith('sort_rows') and s_.get('a') and an.root_of_expr(f, s_['a'][0]) == r and s_['i'] < c['i']]
+                if sorts:
+                    ck.ob('E.block-adapter-sorted', key, f.where(c), True)
+                    continue
+                # internal matrix handed over by shared pointer to the concrete CRS type
+                au = unwrap(arg)
+                ptr_param = None
+                if au is not None and au['k'] == 'un' and au['op'] == '*' and unwrap(au['e'])['k'] == 'ref' and f.param_index(unwrap(au['e'])['d']) is not None:
+                    ptr_param = unwrap(au['e'])['d']
+                if ptr_param is not None and is_crs_shared_ptr(u.type(f.decl(ptr_param).get('ct'))):
+                    ck.ob('E.block-adapter-sorted', key, f.where(c), True, 'internal shared CRS matrix (sorted where it was created)', trivial=True)
+                    continue
+                cls = f.cls or f.q
+                if cls in BLOCK_ADAPTER_CALLERS_SORTED:
+                    ck.ob('E.block-adapter-sorted', key, f.where(c), True, BLOCK_ADAPTER_CALLERS_SORTED[cls], trivial=True)
+                    continue
+                ck.ob('E.block-adapter-sorted', key, f.where(c), False,
+                      'in %s: adapter::block_matrix is applied at %s to `%s`, a matrix that was not sorted in this function: with row entries in arbitrary order the block rows are merged wrongly '
+                      '(entries land in the wrong block column or are dropped)' % (f.full[:90], f.where(c), show(arg)[:40]))
+
+
+def rule_E_adapter(ck, units):
+    """the adapter itself: its row iterator gathers a block by advancing each scalar row's cursor while col < end of the current block
+    column - correct only for sorted rows - and the adapter neither sorts nor checks its input"""
+    done = False
+    for u in units.values():
+        for f in u.funcs:
+            if done or not (f.cls == 'amgcl::adapter::block_matrix_adapter::row_iterator' and f.j.get('ctor') and f.body is not None):
+                continue
+            gathers = [n for n in walk(f.body) if n['k'] == 'for' and n.get('init') is None and n.get('c') is not None
+                       and any(x['k'] == 'bin' and x['op'] == '<' and any(y['k'] == 'call' and y.get('m') == 'col' for y in walk(x['x'])) for x in walk(n['c']))]
+            guards = [c for g in u.funcs if g.cls and g.cls.startswith('amgcl::adapter::block_matrix_adapter') and g.body is not None for c in g.calls()
+                      if (c.get('f') or '').endswith(('sort_rows', 'is_sorted')) or ((c.get('f') or '') == 'amgcl::precondition' and 'sort' in show(c).lower())]
+            if not gathers:
+                continue
+            done = True
+            ok = bool(guards)
+            ck.ob('E.block-adapter-sorted', 'amgcl/adapter/block_matrix.hpp|amgcl::adapter::block_matrix_adapter::row_iterator|input-order', f.where(gathers[0]), ok,
+                  '' if ok else 'adapter::block_matrix applied directly to a matrix whose row entries are not sorted by column does not describe the same operator: the row iterator gathers a block by '
+                                'advancing one cursor per scalar row while col < end of the block column (at %s), and the adapter neither sorts nor checks its input' % f.where(gathers[0]))
+
+
 def main(tier):
     ck = Check('C17', tier, 'C17 (clauses): private copies of user matrices are sorted on entry, caller-owned matrices are never modified, borrowed arrays are never copied or freed.')
     T = os.path.join(ir.VERIF, 'tus')
@@ -289,5 +356,7 @@ def main(tier):
     rule_B(ck, units)
     rule_C(ck, units)
     rule_D(ck, units)
+    rule_E(ck, units)
+    rule_E_adapter(ck, units)
     ck.assumptions += ['that adapters expose the same entries (rows/cols/nonzeros, spmv agreement) and the algebra of reorder / scaled_problem are not decided']
     return ck.finish()
